@@ -16,6 +16,7 @@ mod textgen;
 mod fam_work;
 mod gen;
 mod rec;
+mod replay;
 mod util;
 
 use util::{Args, Out};
@@ -49,6 +50,9 @@ fn main() {
         ("drive", "c18") => fam_text3::drive_c18(&a, &mut out),
         ("drive", "c16") => fam_text3::drive_c16(&a, &mut out),
         ("drive", "c05") => fam_text3::drive_c05(&a, &mut out),
+        ("replay", "alg") => replay::replay_alg(&a, &mut out),
+        ("replay", "compact") => replay::replay_compact(&a, &mut out),
+        ("drive", "steps") => fam_a::drive_steps(&a, &mut out),
         ("drive", "c10ops") => fam_a::drive_c10ops(&a, &mut out),
         (m, f) => {
             eprintln!("unknown mode/family {} {}", m, f);
